@@ -5,6 +5,7 @@ package codegen
 
 import (
 	"fmt"
+	"math"
 	"strings"
 
 	"github.com/gogpu/naga/ir"
@@ -1997,8 +1998,47 @@ func (w *Writer) tryConstEvalBinary(b ir.ExprBinary) (string, bool) {
 	if !leftOk || !rightOk {
 		return "", false
 	}
-	result := ir.EvalBinaryFloat(b.Op, leftVal, rightVal)
+	result, ok := w.constIntResult(b.Left, b.Op, ir.EvalBinaryFloat(b.Op, leftVal, rightVal), rightVal)
+	if !ok {
+		return "", false
+	}
 	return w.formatConstResult(b.Left, result), true
+}
+
+// constIntResult adjusts a value computed in float64 to the integer type of the
+// expression typed like `proto`: a quotient is truncated toward zero, and a value
+// that does not fit the 32-bit type (5 - (-2147483648), 65536 * 65536, x / 0) is
+// not folded at all, so that the expression is written out and wraps at run time
+// as WGSL prescribes instead of being replaced by a saturated literal.
+func (w *Writer) constIntResult(proto ir.ExpressionHandle, op ir.BinaryOperator, val, divisor float64) (float64, bool) {
+	if int(proto) >= len(w.currentFunction.ExpressionTypes) {
+		return val, true
+	}
+	res := &w.currentFunction.ExpressionTypes[proto]
+	inner := res.Value
+	if res.Handle != nil && int(*res.Handle) < len(w.module.Types) {
+		inner = w.module.Types[*res.Handle].Inner
+	}
+	s, isScalar := inner.(ir.ScalarType)
+	if !isScalar || (s.Kind != ir.ScalarSint && s.Kind != ir.ScalarUint) {
+		return val, true
+	}
+	if op == ir.BinaryDivide {
+		if divisor == 0 {
+			return 0, false
+		}
+		val = math.Trunc(val)
+	}
+	if val != math.Trunc(val) {
+		return 0, false
+	}
+	if s.Kind == ir.ScalarSint && (val < math.MinInt32 || val > math.MaxInt32) {
+		return 0, false
+	}
+	if s.Kind == ir.ScalarUint && (val < 0 || val > math.MaxUint32) {
+		return 0, false
+	}
+	return val, true
 }
 
 // tryConstEvalUnary tries to const-evaluate a unary expression at write time.
@@ -2090,12 +2130,13 @@ func (w *Writer) exprConstValue(handle ir.ExpressionHandle) (float64, bool) {
 		left, leftOk := w.exprConstValue(k.Left)
 		right, rightOk := w.exprConstValue(k.Right)
 		if leftOk && rightOk {
-			return ir.EvalBinaryFloat(k.Op, left, right), true
+			return w.constIntResult(k.Left, k.Op, ir.EvalBinaryFloat(k.Op, left, right), right)
 		}
 	case ir.ExprUnary:
 		val, ok := w.exprConstValue(k.Expr)
 		if ok {
-			return ir.EvalUnaryFloat(k.Op, val), true
+			// -(-2147483648) does not fit i32 either
+			return w.constIntResult(k.Expr, ir.BinarySubtract, ir.EvalUnaryFloat(k.Op, val), 1)
 		}
 	}
 	return 0, false
